@@ -51,6 +51,8 @@ def lemmas():
     TK = dict(src="tokrel.c", props=["C09", "C10", "C07"], ghosts=["g_off"], unwindset="find_reg.0:40,strcmp.0:8,mk.0:101,get_operand_type.0:101")
     out.append(Lemma(name="C09.tok.imm_tok", entry="h_imm_tok_r", timeout=1800, functions=["imm_tok"], tier="thorough",
                      desc="imm_tok leaf lemma for its __r contract: on any line buffer and any record, only the immediate flag, the constant and the NASM bit change", **TK))
+    out.append(Lemma(name="C09.tok.imm_tok.frame", entry="h_w_imm_tok", timeout=3000, functions=["imm_tok"], tier="thorough", enforce=["w_imm_tok/w_imm_tok__e"],
+                     desc="imm_tok against its contract in enforcement form (through a wrapper taking buffer and offset): DFCC frame check - only the record and the line buffer are written (no static tokenizer state)", **TK))
     out.append(Lemma(name="C09.tok.mem_tok", entry="h_mem_tok_r", timeout=3000, functions=["mem_tok"], tier="thorough",
                      desc="mem_tok leaf lemma for its __r contract: memory flag and index set, a [constant] operand has neither displacement nor index, every other slot and the encoder fields unchanged", **TK))
     out.append(Lemma(name="C09.tok.check_operand_type", entry="h_check_operand_type_r", timeout=1800, enforce=[RR("check_operand_type")],
